@@ -580,8 +580,10 @@ class HostConnection(object):
                 self.is_shutdown = True
             self._stream_available_condition.notify_all()
 
-        if self._connection:
-            self._connection.close()
+        # (read once: a replacement that finishes right now may take it away)
+        connection = self._connection
+        if connection:
+            connection.close()
             self._connection = None
 
         trash_conns = None
